@@ -19,7 +19,8 @@ CONSTANTS MaxInv,     \* invocations per behaviour
           MaxClock,   \* bound of the logical clock
           Js,         \* values of -j
           Ks,         \* values of -k (0 = unlimited)
-          Crashes     \* TRUE: ninja may die at any point of a build (C07)
+          Crashes,    \* TRUE: ninja may die at any point of a build (C07)
+          Toks        \* jobserver pool sizes offered to ninja (tokens in the FIFO besides the implicit slot); 99 = no jobserver
 
 RawGraphs == ndJsonDeserialize(IF "GRAPHS" \in DOMAIN IOEnv THEN IOEnv.GRAPHS ELSE "graphs.ndjson")
 Vstr(s, ver) == (IF s.gen THEN "gen" ELSE "v" \o ToString(ver)) \o (IF s.rsp THEN "|rsp" ELSE "")
@@ -47,7 +48,8 @@ Env == [g |-> g, nm |-> [f \in DOMAIN disk |-> disk[f].m],
 
 Iv0 == [x |-> 0, targets |-> <<>>, j |-> 1, k |-> 1, env |-> 0, st |-> 0, notrdy |-> {}, want |-> [y \in {} |-> "none"],
         we |-> 0, ce |-> 0, sched |-> {}, ready |-> {}, delayed |-> {}, running |-> {}, started |-> <<>>, startDone |-> <<>>, doneOK |-> {},
-        failed |-> {}, nfail |-> 0, codes |-> {}, T0 |-> <<>>, exp |-> {}, need |-> {}, L0 |-> <<>>, code |-> 0, msg |-> "", skipRec |-> {}]
+        failed |-> {}, nfail |-> 0, codes |-> {}, T0 |-> <<>>, exp |-> {}, need |-> {}, L0 |-> <<>>, code |-> 0, msg |-> "", skipRec |-> {},
+        js |-> 0 - 1, free |-> 0, imp |-> FALSE]
 Init ==
   /\ raw \in {RawGraphs[k] : k \in DOMAIN RawGraphs}
   /\ vers = [i \in DOMAIN raw.stmts |-> 1]
@@ -127,7 +129,15 @@ CleanNode(v, n, fuel) ==
 Budget(v) == v.k = 0 \/ v.nfail < v.k
 MoreToDo(v) == v.we > 0 /\ v.ce > 0
 
-Invoke(targets, j, k) ==
+\* jobserver (build.cc Plan::FindWork, jobserver.cc): with a token pool -j is ignored; every statement taken from the ready
+\* queue - phony ones too - first needs a slot: the implicit one if it is free, else a token from the pool
+SlotFree(v) == v.js < 0 \/ ~v.imp \/ v.free > 0
+Acquire(v) == IF v.js < 0 THEN [v |-> v, slot |-> "none"]
+              ELSE IF ~v.imp THEN [v |-> [v EXCEPT !.imp = TRUE], slot |-> "imp"]
+              ELSE [v |-> [v EXCEPT !.free = @ - 1], slot |-> "tok"]
+Release(v, slot) == IF slot = "imp" THEN [v EXCEPT !.imp = FALSE] ELSE IF slot = "tok" THEN [v EXCEPT !.free = @ + 1] ELSE v
+
+Invoke(targets, j, k, tok) ==
   /\ pc = "idle" /\ ninv < MaxInv
   /\ LET env == Env
          r == ScanAll(env, targets)
@@ -140,7 +150,8 @@ Invoke(targets, j, k) ==
          v0 == [x |-> 1, targets |-> targets, j |-> j, k |-> k, env |-> env, st |-> r.st, notrdy |-> r.st.notrdy, want |-> w,
                 we |-> Cardinality(Wanted(w)), ce |-> Cardinality(WantedCmd(w)), sched |-> {}, ready |-> {}, delayed |-> {},
                 running |-> {}, started |-> <<>>, startDone |-> <<>>, doneOK |-> {}, failed |-> {}, nfail |-> 0, codes |-> {},
-                T0 |-> TT, exp |-> exp, need |-> Needed(g, TT, L, tg), L0 |-> L, code |-> 0, msg |-> "", skipRec |-> {i \in r.st.skipped : Rec(g, TT, L, i) # {}}]
+                T0 |-> TT, exp |-> exp, need |-> Needed(g, TT, L, tg), L0 |-> L, code |-> 0, msg |-> "", skipRec |-> {i \in r.st.skipped : Rec(g, TT, L, i) # {}},
+                js |-> IF tok = 99 THEN 0 - 1 ELSE tok, free |-> IF tok = 99 THEN 0 ELSE tok, imp |-> FALSE]
          \* ScheduleInitialEdges
          RECURSIVE Init1(_, _)
          Init1(v, q) == IF q = {} THEN v ELSE LET i == CHOOSE x \in q : \A y \in q : x <= y IN
@@ -155,7 +166,7 @@ Invoke(targets, j, k) ==
   /\ ninv' = ninv + 1 /\ nenv' = 0
   /\ UNCHANGED <<raw, vers, disk, clock, blog, dlog, dfile, L, F>>
 
-CanStart == pc = "build" /\ Budget(iv) /\ iv.ready # {} /\ (Cardinality(iv.running) < iv.j \/ \E i \in iv.ready : St(g, i).phony)
+CanStart == pc = "build" /\ Budget(iv) /\ iv.ready # {} /\ (IF iv.js >= 0 THEN SlotFree(iv) ELSE (Cardinality(iv.running) < iv.j \/ \E i \in iv.ready : St(g, i).phony))
 
 ContentOf(s) == NewC(s, [f \in DOMAIN disk |-> IF disk[f].m > 0 THEN disk[f].c ELSE Missing(f)])
 
@@ -164,15 +175,18 @@ Fuel == 2 * Len(g.stmts) + 2
 \* a phony statement in the ready queue is finished on the spot
 StartPhony(v, i) == FinishOK([v EXCEPT !.ready = @ \ {i}], i, Fuel)
 \* a command is handed to the runner: c = what it will write, t = start time
-StartCmd(v, i, c, t) == [v EXCEPT !.ready = @ \ {i}, !.running = @ \cup {[i |-> i, c |-> c, t |-> t]},
+StartCmd(v0, i, c, t) == LET a == Acquire(v0)  v == a.v IN
+                         [v EXCEPT !.ready = @ \ {i}, !.running = @ \cup {[i |-> i, c |-> c, t |-> t, slot |-> a.slot]},
                                    !.started = Append(@, i), !.startDone = Append(@, v.doneOK)]
 \* Plan::EdgeFinished(kEdgeFailed): pool release only
-FinishFail(v, r) == Retrieve([v EXCEPT !.running = @ \ {r}, !.sched = @ \ {r.i}, !.failed = @ \cup {r.i}, !.nfail = @ + 1, !.codes = @ \cup {1}], St(g, r.i).pool)
+FinishFail(v0, r) == LET v == Release(v0, r.slot) IN
+                    Retrieve([v EXCEPT !.running = @ \ {r}, !.sched = @ \ {r.i}, !.failed = @ \cup {r.i}, !.nfail = @ + 1, !.codes = @ \cup {1}], St(g, r.i).pool)
 \* FinishCommand of a successful command whose outputs have the mtimes nm afterwards: restat check against the mtimes
 \* cached by the scan, Plan::CleanNode for unchanged outputs, then Plan::EdgeFinished
 CleanedOuts(v, i, nm) == LET s == St(g, i) IN {o \in ToS(s.outs \o s.iouts) : Restat(s) /\ nm[o] = v.st.nmt[o]}
-FinishSucc(v, r, cleaned) ==
-  LET RECURSIVE CleanAll(_, _)
+FinishSucc(v0, r, cleaned) ==
+  LET v == Release(v0, r.slot)
+      RECURSIVE CleanAll(_, _)
       CleanAll(w, q) == IF q = {} THEN w ELSE LET o == CHOOSE x \in q : TRUE IN CleanAll(CleanNode(w, o, Fuel), q \ {o})
       v1 == CleanAll([v EXCEPT !.running = @ \ {r}], cleaned)
   IN FinishOK([v1 EXCEPT !.doneOK = @ \cup {r.i}], r.i, Fuel)
@@ -196,9 +210,10 @@ Start(i) ==
   /\ pc = "build" /\ Budget(iv) /\ i \in iv.ready /\ clock < MaxClock
   /\ LET s == St(g, i) IN
      IF s.phony
-     THEN /\ iv' = StartPhony(iv, i)
+     THEN /\ SlotFree(iv)          \* taken and handed back on the spot
+          /\ iv' = StartPhony(iv, i)
           /\ UNCHANGED <<clock>>
-     ELSE /\ Cardinality(iv.running) < iv.j
+     ELSE /\ IF iv.js >= 0 THEN SlotFree(iv) ELSE Cardinality(iv.running) < iv.j
           /\ iv' = StartCmd(iv, i, ContentOf(s), clock + 1)
           /\ clock' = clock + 1
   /\ UNCHANGED <<raw, vers, disk, blog, dlog, dfile, L, F, pc, ninv, nenv, kf, last>>
@@ -281,8 +296,8 @@ ChangeCmd(i) == /\ pc = "idle" /\ ninv > 0 /\ ninv < MaxInv /\ nenv < MaxEnv /\ 
 
 Roots == LET RECURSIVE R(_) R(i) == IF i > Len(g.stmts) THEN <<>> ELSE SelectSeq(g.stmts[i].outs \o g.stmts[i].iouts, LAMBDA o : o \in RootOuts(g)) \o R(i + 1) IN R(1)
 Next ==
-  \/ \E j \in Js, k \in Ks : Invoke(Roots, j, k)
-  \/ \E j \in Js, o \in AllOuts(g) : Invoke(<<o>>, j, 1)
+  \/ \E j \in Js, k \in Ks, tok \in Toks : Invoke(Roots, j, k, tok)
+  \/ \E j \in Js, o \in AllOuts(g) : Invoke(<<o>>, j, 1, 99)
   \/ \E i \in Ids(g) : Start(i)
   \/ \E r \in iv.running : \E ok \in BOOLEAN : Finish(r, ok)
   \/ Exit
@@ -311,7 +326,9 @@ Contained == iv.x = 1 => /\ \A k \in DOMAIN iv.started : iv.started[k] \notin Do
                          /\ (Done /\ iv.failed # {} => iv.code # 0)
                          /\ (Done /\ iv.code # 0 /\ iv.msg \notin {"missing", "crashed"} => iv.failed # {})
 \* C06
-Limits == iv.x = 1 => /\ Cardinality(iv.running) <= iv.j
+Limits == iv.x = 1 => /\ (IF iv.js >= 0 THEN Cardinality(iv.running) <= 1 + (iv.js - iv.free) /\ iv.free >= 0 /\ iv.free <= iv.js ELSE Cardinality(iv.running) <= iv.j)
+                      \* every token is back by the time ninja exits on any path of the loop
+                      /\ (pc = "idle" /\ iv.js >= 0 /\ iv.msg # "crashed" => iv.free = iv.js /\ ~iv.imp)
                       /\ \A p \in {St(g, r.i).pool : r \in iv.running} : PoolDepthG(p) = 0 \/ Cardinality({r \in iv.running : St(g, r.i).pool = p}) <= PoolDepthG(p)
                       /\ \A a, b \in DOMAIN iv.started : a # b => iv.started[a] # iv.started[b]
                       /\ iv.msg # "stuck"
@@ -322,7 +339,7 @@ Pending(i) == i \in DOMAIN iv.want /\ iv.want[i] \in {"start", "finish"}
 RefStartable(i) == /\ Pending(i) /\ ~St(g, i).phony /\ i \notin ToS(iv.started)
                    /\ \A p \in Producers(g, iv.T0, iv.L0, i) : ~Pending(p)
                    /\ LET pl == St(g, i).pool IN PoolDepthG(pl) = 0 \/ Cardinality({r \in iv.running : St(g, r.i).pool = pl}) < PoolDepthG(pl)
-NoIdle == (pc = "build" /\ iv.x = 1 /\ ~CanStart /\ iv.running # {} /\ Budget(iv) /\ Cardinality(iv.running) < iv.j /\ ~kf)
+NoIdle == (pc = "build" /\ iv.x = 1 /\ ~CanStart /\ iv.running # {} /\ Budget(iv) /\ (IF iv.js >= 0 THEN SlotFree(iv) ELSE Cardinality(iv.running) < iv.j) /\ ~kf)
             => ~\E i \in Ids(g) : RefStartable(i)
 \* C07: whatever the crash point, a later successful build leaves the needed closure as a clean build would
 \* (this is NoStale in behaviours with Crash steps); Recovers names the states it is about
